@@ -332,6 +332,27 @@ pub fn byte_lengths(bs: usize, max: usize) -> Vec<usize> {
     v.insert(max);
     v.into_iter().collect()
 }
+/// a few long lengths (past 8 and 16 blocks, whatever the parallel width): catches fixed bulk-path thresholds
+pub fn long_lengths(bs: usize) -> Vec<usize> {
+    vec![8 * bs, 9 * bs - 1, 9 * bs + 1, 17 * bs + 1]
+}
+/// number of blocks a single call must be able to exceed: twice the parallel width and fixed thresholds up to 16
+pub fn long_blocks(par: usize) -> usize {
+    (2 * par).max(16) + 2
+}
+/// cut / piece-length candidates on a long input: block-boundary neighbourhoods
+pub fn boundary_points(bs: usize, l: usize) -> Vec<usize> {
+    let mut v = std::collections::BTreeSet::new();
+    for k in 0..=l / bs {
+        for r in [0usize, 1, bs / 2, bs - 1] {
+            let p = k * bs + r;
+            if p > 0 && p < l {
+                v.insert(p);
+            }
+        }
+    }
+    v.into_iter().collect()
+}
 /// split points (0 < s < l) explored: all for small blocks, block-boundary neighbourhoods otherwise
 pub fn split_points(bs: usize, l: usize, gran: usize) -> Vec<usize> {
     let all: Vec<usize> = (1..l).filter(|s| s % gran == 0).collect();
